@@ -219,7 +219,20 @@ func writeVerifFrame(st *serverTester, tok string) {
 			lo, hi := i*len(block)/nfrag, (i+1)*len(block)/nfrag
 			frags = append(frags, block[lo:hi])
 		}
-		st.fr.WriteHeaders(HeadersFrameParam{StreamID: id, BlockFragment: frags[0], EndStream: es, EndHeaders: len(frags) == 1, Priority: prio})
+		if kind == "H" && p[2] != "-" && prio.IsZero() {
+			// PRIORITY flag with an all-zero priority block (dependency 0, not exclusive, weight byte 0): the framer's
+			// WriteHeaders cannot say that, a client can
+			var fl Flags = FlagHeadersPriority
+			if es {
+				fl |= FlagHeadersEndStream
+			}
+			if len(frags) == 1 {
+				fl |= FlagHeadersEndHeaders
+			}
+			st.fr.WriteRawFrame(FrameHeaders, fl, id, append([]byte{0, 0, 0, 0, 0}, frags[0]...))
+		} else {
+			st.fr.WriteHeaders(HeadersFrameParam{StreamID: id, BlockFragment: frags[0], EndStream: es, EndHeaders: len(frags) == 1, Priority: prio})
+		}
 		for i := 1; i < len(frags); i++ {
 			st.fr.WriteContinuation(id, i == len(frags)-1, frags[i])
 		}
